@@ -140,35 +140,63 @@ def gen_rows(rng, dtype, taxa, nchar, ragged=False, informative=True):
     return rows
 
 
-def gen_call(rng, ntaxa, odd=0.12):
+def gen_mat(rng, ntaxa, odd=0.05):
+    """a matrix OBJECT of a history: data type, row order and initial contents"""
     dtype = rng.choice(DTYPES)
     nchar = rng.randint(1, 8)
-    taxa = list(range(ntaxa))
-    order = taxa[:]
+    order = list(range(ntaxa))
     rng.shuffle(order)
+    ragged = False
+    k = rng.random()
+    if k < odd * 0.5:
+        order = order[:-1] if len(order) > 1 else order          # a leaf taxon without a row
+    elif k < odd:
+        ragged = True
+    return {"dtype": dtype, "nchar": nchar, "order": order, "rows": gen_rows(rng, dtype, order, nchar, ragged)}
+
+
+def gen_edits(rng, mat, rows):
+    """in-place cell edits (taxon, column, new symbol) that keep the dimensions of the matrix"""
+    cells = [(x, j) for x in mat["order"] for j in range(len(rows[str(x)]))]
+    if not cells:
+        return []
+    ns = nsymbols(mat["dtype"])
+    k = rng.choice([1, 1, 2, 3, 4, 8])
+    if rng.random() < 0.2:
+        # rewrite one whole column
+        j = rng.randrange(max(len(r) for r in rows.values()))
+        picked = [(x, j) for x in mat["order"] if j < len(rows[str(x)])]
+    else:
+        picked = [rng.choice(cells) for _ in range(k)]
+    out = []
+    for x, j in picked:
+        old = rows[str(x)][j]
+        new = rng.randrange(ns)
+        if new == old and rng.random() < 0.8:
+            new = (old + 1 + rng.randrange(ns - 1)) % ns if ns > 1 else old
+        out.append([x, j, new])
+    return out
+
+
+def gen_call(rng, mat_index, mat, odd=0.09):
+    nchar = mat["nchar"]
     r = rng.random()
     api = ["PS", True]
     weights = None
     if rng.random() < 0.45:
         weights = [rng.choice([0, 1, 1, 2, 3, 5, 10]) for _ in range(nchar)]
-    ragged = False
     if r < odd:
         k = rng.random()
-        if k < 0.15:
+        if k < 0.2:
             api = ["PS", False]
-        elif k < 0.40:
+        elif k < 0.55:
             api = ["DP", rng.random() < 0.5]
-        elif k < 0.60:
+        elif k < 0.85:
             api = ["UP", rng.random() < 0.5]
-        elif k < 0.75:
-            order = order[:-1] if len(order) > 1 else order          # a leaf taxon without a row
-        elif k < 0.88:
-            ragged = True
         else:
             weights = [rng.choice([1, 2, -1]) for _ in range(rng.randint(0, nchar))]   # too short / negative
-    rows = gen_rows(rng, dtype, order, nchar, ragged)
-    return {"api": api, "dtype": dtype, "gam": rng.random() < 0.5, "order": order, "rows": rows,
-            "weights": weights, "sbc": rng.random() < 0.7}
+    return {"api": api, "mat": mat_index, "edits": [], "dtype": mat["dtype"], "gam": rng.random() < 0.5,
+            "order": mat["order"], "rows": None, "weights": weights, "sbc": rng.random() < 0.7}
 
 
 def gen_case(rng, max_leaves=12):
@@ -182,19 +210,38 @@ def gen_case(rng, max_leaves=12):
     else:
         tree = trees.gen_tree(rng, n, shape="binary", lengths="none", unifurcations=0.2)
     ncalls = rng.choice([1, 2, 2, 3, 3, 4])
-    calls = [gen_call(rng, n) for _ in range(ncalls)]
-    if rng.random() < 0.3 and ncalls >= 2:
-        # same matrix shape, other data: the classic F11 situation
-        c = copy.deepcopy(calls[0])
-        c["rows"] = gen_rows(rng, c["dtype"], c["order"], len(next(iter(c["rows"].values()), [])) or 1)
-        calls[1] = c
+    nm = rng.randint(1, ncalls)
+    mats = [gen_mat(rng, n) for _ in range(nm)]
+    if nm >= 2 and rng.random() < 0.3:
+        # same data type and shape, other data: the classic F11 situation
+        m = copy.deepcopy(mats[0])
+        m["rows"] = gen_rows(rng, m["dtype"], m["order"], m["nchar"])
+        mats[1] = m
+    cur = [copy.deepcopy(m["rows"]) for m in mats]
+    used = []
+    calls = []
+    for _ in range(ncalls):
+        # matrix objects are re-used across calls (with and without edits in between, with
+        # either gap setting), mixed with other matrix objects
+        if used and rng.random() < 0.55:
+            j = rng.choice(used)
+        else:
+            j = rng.randrange(nm)
+        c = gen_call(rng, j, mats[j])
+        if j in used and rng.random() < 0.65:
+            c["edits"] = gen_edits(rng, mats[j], cur[j])
+            for x, col, sym in c["edits"]:
+                cur[j][str(x)][col] = sym
+        c["rows"] = copy.deepcopy(cur[j])
+        used.append(j)
+        calls.append(c)
     variants = []
     if n >= 2:
         variants.append(["swap", swap_copy(rng, tree)])
         npre = len(trees.preorder(tree))
         for _ in range(rng.choice([1, 1, 2])):
             variants.append(["reroot", reroot_copy(tree, rng.randrange(1, npre))])
-    return {"tree": tree, "ntaxa": n, "calls": calls, "variants": variants, "kind": "random"}
+    return {"tree": tree, "ntaxa": n, "mats": mats, "calls": calls, "variants": variants, "kind": "random"}
 
 
 # --------------------------------------------------------------------------------------------
@@ -223,13 +270,33 @@ class World:
             else:
                 self.aux.append(None)
 
-    def build_call(self, c):
-        foreign = c["api"] == ["PS", False]
+    def build_matrix(self, dtype, order, rows, foreign=False):
         ns, tx = (self.other_ns, self.other_taxa) if foreign else (self.ns, self.taxa)
-        m = make_matrix(c["dtype"], ns)
+        m = make_matrix(dtype, ns)
         states = list(m.default_state_alphabet)
-        for x in c["order"]:
-            m.new_sequence(tx[x], [states[s] for s in c["rows"][str(x)]])
+        for x in order:
+            m.new_sequence(tx[x], [states[s] for s in rows[str(x)]])
+        return m, states
+
+    def build_call(self, c):
+        """a freshly built matrix object holding the contents the matrix has at the time of call c"""
+        m, states = self.build_matrix(c["dtype"], c["order"], c["rows"], c["api"] == ["PS", False])
+        return {"spec": c, "chars": m, "states": states}
+
+    def live_matrices(self, case):
+        """the matrix objects of one history; edited in place between the calls"""
+        return [self.build_matrix(m["dtype"], m["order"], m["rows"]) for m in case.get("mats", [])]
+
+    def live_call(self, live, c):
+        """apply the in-place edits that precede call c to its matrix object; the call then re-uses
+        that same object.  (calls that need a foreign namespace get a private object)"""
+        if c.get("mat") is None:
+            return self.build_call(c)
+        m, states = live[c["mat"]]
+        for x, col, sym in c.get("edits", []):
+            m[self.taxa[x]][col] = states[sym]         # public API: CharacterDataSequence.__setitem__
+        if c["api"] == ["PS", False]:
+            return self.build_call(c)                  # same contents in a matrix of another namespace
         return {"spec": c, "chars": m, "states": states}
 
     def alphabet(self, built):
@@ -287,22 +354,26 @@ def observe(case):
     allcalls = w.calls + [a for a in w.aux]
     runs = []
 
-    def do_run(name, spec, idxs):
+    def do_run(name, spec, idxs, history=False):
         tree, order = w.new_tree(spec)
+        live = w.live_matrices(case) if history else None
         obs = []
         maps = []
         for i in idxs:
-            obs.append(w.exec_call(tree, order, allcalls[i]))
-            maps.append(w.observed_map(allcalls[i]))
+            built = w.live_call(live, case["calls"][i]) if history else allcalls[i]
+            obs.append(w.exec_call(tree, order, built))
+            maps.append(w.observed_map(built))
         runs.append({"name": name, "calls": idxs, "obs": obs, "maps": maps})
 
-    do_run("main", case["tree"], list(range(ncalls)))
+    # histories: one tree object, matrix objects re-used and edited in place between calls
+    do_run("main", case["tree"], list(range(ncalls)), history=True)
+    # references: a fresh tree object and a freshly built matrix with the current contents, per call
     for i in range(ncalls):
         do_run("fresh%d" % i, case["tree"], [i])
         if w.aux[i] is not None:
             do_run("aux%d" % i, case["tree"], [ncalls + i])
     for k, (kind, spec) in enumerate(case["variants"]):
-        do_run("%s%d" % (kind, k), spec, list(range(ncalls)))
+        do_run("%s%d" % (kind, k), spec, list(range(ncalls)), history=True)
     alph = [w.alphabet(b) if b is not None else None for b in allcalls]
     syms = [[s.symbol for s in b["states"]] if b is not None else None for b in allcalls]
     return {"runs": runs, "alphabets": alph, "symbols": syms}
@@ -402,6 +473,17 @@ def brute_min(tree, leafset, nstates):
 BRUTE = {"leaves": 5, "assignments": 700}
 
 
+def matrix_history(calls, i):
+    """how the matrix object of call i was used before: new / reused unchanged / edited in place"""
+    c = calls[i]
+    if c.get("mat") is None or not any(calls[j].get("mat") == c["mat"] for j in range(i)):
+        return "new-matrix-object"
+    first = min(j for j in range(i) if calls[j].get("mat") == c["mat"])
+    if any(calls[j].get("mat") == c["mat"] and calls[j].get("edits") for j in range(first + 1, i + 1)):
+        return "same-matrix-object-edited-in-place"
+    return "same-matrix-object-unchanged"
+
+
 def rectangular(case, c):
     """a proper matrix: a row for every leaf taxon, all rows of one length"""
     lens = set(len(c["rows"][str(x)]) for x in c["order"])
@@ -433,9 +515,11 @@ def oracle(case, obs):
         got = runs["main"]["obs"][i]
         if (got["res"], got["sbc"]) != (fresh[i]["res"], fresh[i]["sbc"]):
             prior = [calls[j]["api"][0] for j in range(i)]
-            return ("call %d on a tree already used for calls %s returned %s %s, a fresh tree object gives %s %s"
-                    % (i, prior, got["res"], got["sbc"], fresh[i]["res"], fresh[i]["sbc"]),
-                    "history:" + "+".join(sorted(set(prior))) + ">" + c["api"][0])
+            how = matrix_history(calls, i)
+            return ("call %d (%s) on a tree already used for calls %s returned %s %s; a fresh tree object with a "
+                    "freshly built copy of the matrix's current contents gives %s %s"
+                    % (i, how, prior, got["res"], got["sbc"], fresh[i]["res"], fresh[i]["sbc"]),
+                    "history:" + how + ":" + "+".join(sorted(set(prior))) + ">" + c["api"][0])
     for i, c in enumerate(calls):
         if not scoring(c):
             continue
@@ -596,7 +680,7 @@ def exhaustive_cases(chunk=200):
             for a in range(0, len(cols), chunk):
                 part = cols[a:a + chunk]
                 rows = {str(x): [col[x] for col in part] for x in range(n)}
-                call = {"api": ["PS", True], "dtype": dtype, "gam": True, "order": list(range(n)), "rows": rows,
+                call = {"api": ["PS", True], "mat": None, "edits": [], "dtype": dtype, "gam": True, "order": list(range(n)), "rows": rows,
                         "weights": None, "sbc": True}
                 yield {"tree": tree, "ntaxa": n, "calls": [call], "variants": [], "kind": "exhaustive"}
 
@@ -604,17 +688,36 @@ def exhaustive_cases(chunk=200):
 def known_f11_case():
     """the F11 witness of DESIGN 5.3: two matrices on 4 taxa, second call must not reuse the first's leaves"""
     tree = trees.shape_to_tree([[[], []], [[], []]])
-    mk = lambda rows: {"api": ["PS", True], "dtype": "dna", "gam": True, "order": [0, 1, 2, 3],
+    mk = lambda rows: {"api": ["PS", True], "mat": None, "edits": [], "dtype": "dna", "gam": True, "order": [0, 1, 2, 3],
                        "rows": {str(i): r for i, r in enumerate(rows)}, "weights": None, "sbc": True}
     return {"tree": tree, "ntaxa": 4, "calls": [mk([[0, 0], [0, 0], [0, 0], [0, 0]]), mk([[0, 1], [1, 0], [2, 3], [3, 2]])],
             "variants": [], "kind": "f11"}
+
+
+def known_edit_case():
+    """one matrix object scored, four of its cells edited in place (dimensions unchanged), scored again
+    with either gap setting; each score must be that of the matrix's current contents"""
+    tree = trees.shape_to_tree([[[[], []], []], [[[], []], []]])
+    sym = {ch: i for i, ch in enumerate("ACGT-?NRYMWSKVHDB")}
+    seqs = ["ACGTA-", "AGGCAT", "CCRTNA", "CGATCT", "AGA?CA", "CCYCAT"]
+    rows0 = {str(i): [sym[ch] for ch in sq] for i, sq in enumerate(seqs)}
+    edits = [[1, 0, sym["C"]], [3, 3, sym["C"]], [5, 5, sym["-"]], [0, 4, sym["G"]]]
+    rows1 = copy.deepcopy(rows0)
+    for x, col, sy in edits:
+        rows1[str(x)][col] = sy
+    mk = lambda rows, ed, gam: {"api": ["PS", True], "mat": 0, "edits": ed, "dtype": "dna", "gam": gam,
+                                "order": list(range(6)), "rows": copy.deepcopy(rows), "weights": None, "sbc": True}
+    mats = [{"dtype": "dna", "nchar": 6, "order": list(range(6)), "rows": rows0}]
+    return {"tree": tree, "ntaxa": 6, "mats": mats,
+            "calls": [mk(rows0, [], True), mk(rows1, edits, True), mk(rows1, [], False), mk(rows1, [], True)],
+            "variants": [], "kind": "matrix-edit"}
 
 
 def search(ctx, budget_s):
     t0 = time.time()
     rng = random.Random(ctx.seed + 1616)
     n = 0
-    cases = [known_f11_case()]
+    cases = [known_f11_case(), known_edit_case()]
     while time.time() - t0 < budget_s and n < 20000:
         case = cases.pop() if cases else gen_case(rng)
         obs = observe(case)
@@ -638,6 +741,7 @@ def run(tier, seed, replay=None):
         "model coq/Model/C16Model.v is a hand transcription of parsimony.py (fitch_down_pass, fitch_up_pass, parsimony_score) and taxon_state_sets_map; tied by this correspondence run",
         "state sets are Z bitmasks of fundamental state indexes; the symbol -> state set tables of the alphabets are read from the library at run time (and compared with the documented meaning by the oracle)",
         "weights are Python ints (float weights not modelled); post-order / pre-order iteration of the tree is the structural one (C15)",
+        "the model is a function of the matrix CONTENTS at the time of each call (passed per call); matrix object identity, re-use and in-place edits exist only on the implementation side and are checked against fresh copies by the oracle and against the model by the correspondence",
         "theorems quantify over fully bifurcating trees with distinct node ids; the model also covers polytomies/unifurcations (sequential treatment / ValueError) for the correspondence only",
     ]
     if replay:
@@ -655,7 +759,7 @@ def run(tier, seed, replay=None):
     if not ok:
         core.broken_proof(ctx, search)
     n = 420 if tier == "quick" else 5000
-    cases = [known_f11_case()] + [gen_case(ctx.rng) for _ in range(n)]
+    cases = [known_f11_case(), known_edit_case()] + [gen_case(ctx.rng) for _ in range(n)]
     if tier == "thorough":
         cases.extend(exhaustive_cases())
     for c in cases:
@@ -663,7 +767,8 @@ def run(tier, seed, replay=None):
         ctx.count("leaves:%d" % c["ntaxa"])
         ctx.count("shape:" + ("binary" if is_binary(c["tree"]) else "non-binary"))
         ctx.count("history-length:%d" % len(c["calls"]))
-        for k in c["calls"]:
+        for i, k in enumerate(c["calls"]):
+            ctx.count("matrix:" + matrix_history(c["calls"], i))
             ctx.count("api:%s/%s" % tuple(k["api"]))
             ctx.count("dtype:" + k["dtype"])
             ctx.count("gaps_as_missing:%s" % k["gam"])
@@ -682,6 +787,9 @@ def run(tier, seed, replay=None):
     return ctx.finish(
         level="proof",
         rule="random trees <=12 leaves (86% binary, rest polytomies/unifurcations), histories of 1-4 calls "
+             "on 1-4 matrix OBJECTS that are re-used across calls (unchanged, or with cells edited in place between "
+             "calls, with either gap setting) and mixed with other matrix objects; every call is compared with the "
+             "same call on a fresh tree object and a freshly built matrix holding the current contents; calls are "
              "(parsimony_score / fitch_down_pass with and without map / fitch_up_pass) with DNA, RNA, protein, "
              "standard, restriction and custom matrices over the full symbol sets, gaps_as_missing both ways, "
              "weights, ragged/missing rows; every history is replayed on the main tree, on fresh trees per call, "
